@@ -92,6 +92,11 @@ pub fn sig_of<T: Signature>() -> String {
 pub trait Tok: Sized {
     fn from_tok(a: &mut Args) -> Self;
     fn to_tok(&self, out: &mut Vec<String>, sorted: bool);
+    /// BPUSHVI: for the variant wrapper Var<T>, push_variant of the CONTENT (the Rust type T itself, whose signature may
+    /// be one a variant must not carry: more than 255 characters, more than 32 nested arrays); None for every other type
+    fn push_inner_variant(&self, _body: &mut MarshalledMessageBody) -> Option<Result<(), MarshalError>> {
+        None
+    }
 }
 
 macro_rules! num_tok {
@@ -363,7 +368,7 @@ impl<'buf, 'fds> Unmarshal<'buf, 'fds> for Sig {
 /// unmarshal through unmarshal::traits::Variant and get::<T>()
 #[derive(Debug, Clone)]
 pub struct Var<T>(pub T);
-impl<T: Tok + Signature> Tok for Var<T> {
+impl<T: Tok + Marshal> Tok for Var<T> {
     fn from_tok(a: &mut Args) -> Self {
         assert_eq!(a.next(), "v");
         let _sig = a.next();
@@ -373,6 +378,9 @@ impl<T: Tok + Signature> Tok for Var<T> {
         out.push("v".into());
         out.push(sig_of::<T>());
         self.0.to_tok(out, s);
+    }
+    fn push_inner_variant(&self, body: &mut MarshalledMessageBody) -> Option<Result<(), MarshalError>> {
+        Some(body.push_variant(&self.0))
     }
 }
 /// Var<T> does NOT describe the variant itself: alignment, signature and has_sig are those of the crate's
@@ -409,7 +417,9 @@ impl<'buf, 'fds, T: Marshal + Unmarshal<'buf, 'fds>> Unmarshal<'buf, 'fds> for V
 pub struct UVar<T>(pub T);
 impl<T: Tok + Signature> Tok for UVar<T> {
     fn from_tok(a: &mut Args) -> Self {
-        UVar(Var::<T>::from_tok(a).0)
+        assert_eq!(a.next(), "v");
+        let _sig = a.next();
+        UVar(T::from_tok(a))
     }
     fn to_tok(&self, out: &mut Vec<String>, s: bool) {
         out.push("v".into());
@@ -812,6 +822,14 @@ where
     T: Tok + Marshal,
 {
     match op {
+        "BPUSHVI" => {
+            let v = T::from_tok(a);
+            let r = BODY.with(|b| v.push_inner_variant(&mut b.borrow_mut().body));
+            match r {
+                Some(r) => format!("{} {}", if r.is_ok() { "ok" } else { "err" }, body_state()),
+                None => "?".to_string(),
+            }
+        }
         "MT" | "RT" => {
             let bo_tok = a.next();
             let byteorder = match bo_tok {
@@ -986,6 +1004,14 @@ where
             let v = T::from_tok(a);
             let r = BODY.with(|b| b.borrow_mut().body.push_variant(&v));
             format!("{} {}", if r.is_ok() { "ok" } else { "err" }, body_state())
+        }
+        "BPUSHVI" => {
+            let v = T::from_tok(a);
+            let r = BODY.with(|b| v.push_inner_variant(&mut b.borrow_mut().body));
+            match r {
+                Some(r) => format!("{} {}", if r.is_ok() { "ok" } else { "err" }, body_state()),
+                None => "?".to_string(),
+            }
         }
         "BPUSHN" => {
             let k = a.num() as usize;
